@@ -6,7 +6,7 @@ FAMILIES = {
     "queue": {
         "name": "queue", "props": ["C10"], "models": "Queue.v",
         "harness": COMMON + ["zz_vf_queue_test.go"], "test": "TestVfQueue",
-        "n": {"quick": 1500, "thorough": 30000},
+        "n": {"quick": 1500, "thorough": 150000},
         "codes": [(100, 199, ["C10"])],
         "code_names": {
             1: "undecodable case", 10: "model out of fuel", 20: "GetBroadcasts result differs", 21: "finished set differs",
@@ -49,7 +49,7 @@ CORE_NAMES = {
 FAMILIES["core"] = {
     "name": "core", "props": ["C01", "C02", "C07", "C08", "C18", "C06", "C09", "C03"], "models": "Core.v",
     "harness": COMMON + ["zz_vf_core_test.go"], "test": "TestVfCore",
-    "n": {"quick": 1200, "thorough": 30000},
+    "n": {"quick": 1200, "thorough": 80000},
     "codes": [(100, 109, ["C01", "C02", "C07", "C08", "C18", "C20"]), (110, 111, ["C01"]), (112, 112, ["C01", "C03"]), (113, 119, ["C01"]), (120, 129, ["C02"]), (130, 139, ["C07"]),
               (140, 146, ["C08"]), (147, 147, ["C08", "C01"]), (148, 149, ["C08"]), (150, 159, ["C18"]), (160, 169, ["C06"]), (170, 179, ["C09"])],
     "code_names": CORE_NAMES,
@@ -61,7 +61,7 @@ FAMILIES["core"] = {
 FAMILIES["susp"] = {
     "name": "susp", "props": ["C06"], "models": "Susp.v",
     "harness": COMMON + ["zz_vf_susp_test.go"], "test": "TestVfSusp",
-    "n": {"quick": 600, "thorough": 20000},
+    "n": {"quick": 600, "thorough": 150000},
     "codes": [(160, 169, ["C06"])],
     "code_names": {1: "undecodable case", 40: "Confirm results differ", 41: "firing instant differs",
                    164: "C06: schedule table leaves [min,max], is not non-increasing, or T(k) != min (float formula / clamp)",
@@ -75,7 +75,7 @@ FAMILIES["susp"] = {
 FAMILIES["keyring"] = {
     "name": "keyring", "props": ["C17"], "models": "Keyring.v",
     "harness": COMMON + ["zz_vf_keyring_test.go"], "test": "TestVfKeyring",
-    "n": {"quick": 1500, "thorough": 30000},
+    "n": {"quick": 1500, "thorough": 150000},
     "codes": [(180, 189, ["C17"])],
     "code_names": {1: "undecodable case", 50: "call result (ok/error/panic) differs", 51: "returned key list / primary differs",
                    52: "content of a previously returned key list differs", 53: "NewKeyring outcome differs",
@@ -133,7 +133,7 @@ FAMILIES["stream"] = {
 FAMILIES["probe"] = {
     "name": "probe", "props": ["C19"], "models": "Probe.v",
     "harness": COMMON + ["zz_vf_wire_test.go", "zz_vf_probe_test.go"], "test": "TestVfProbe",
-    "n": {"quick": 800, "thorough": 20000}, "no_shrink": True,
+    "n": {"quick": 800, "thorough": 150000}, "no_shrink": True,
     "codes": [(400, 409, ["C19"])],
     "code_names": {1: "undecodable case",
                    400: "C19: health score left [0, max-1]", 401: "C19: pending-probe record still registered after its deadline",
@@ -148,7 +148,7 @@ FAMILIES["probe"] = {
 FAMILIES["life"] = {
     "name": "life", "props": ["C20"], "models": "Lifecycle.v, Core.v",
     "harness": COMMON + ["zz_vf_wire_test.go", "zz_vf_life_test.go"], "test": "TestVfLife",
-    "n": {"quick": 600, "thorough": 10000},
+    "n": {"quick": 600, "thorough": 60000},
     "codes": [(500, 509, ["C20"])],
     "code_names": {1: "undecodable case", 70: "panic outcome differs from the lifecycle model",
                    500: "C20: a public call panicked", 501: "C20: Leave / UpdateNode / another call blocked past its timeout",
